@@ -4,14 +4,14 @@
    Model/FileCache.v: FileCache (Put, removeOldEntries, Get, Evict, key), Load,
    Line.Autofix and the five fix operations, SaveAutofixChanges, over an explicit
    heap of Line objects.  A history is any list of
-     OLoad fn o | OFix view line fixop | OSave view | OModify file content (+ Evict);
+     OLoad fn o | OFix view line fixop | OSave view failing-files | OModify file content (+ Evict);
    overflow of the cache is what loads of further *.mk files do.
    `reach convert is_mk md cap disk s`: s is reachable from a fresh G (cache of
    capacity cap, files as in disk) in mode md (default / --show-autofix / --autofix)
    by SOME history; convert stands for convertToLogicalLines, is_mk for the
    ".mk" suffix test; both are arbitrary. *)
 From PV Require Import Lib.Bytes Model.FileCache Spec.FreshLoad
-  Proofs.FileCacheWf Proofs.FileCacheInv Proofs.FileCache Proofs.FileCacheSim.
+  Proofs.FileCacheWf Proofs.FileCacheInv Proofs.FileCache Proofs.FileCacheSim Proofs.FileCachePrivate.
 From Coq Require Import Permutation.
 Open Scope N_scope.
 
@@ -107,8 +107,8 @@ Print Assumptions C20_load_transparent_refuted.
    of every line with a modified fix, is out of the cache afterwards, so the next
    Load of it reads the disk -- unconditionally *)
 Theorem C20_no_stale_after_save :
-  forall convert is_mk md cap disk s v s' w, (1 <= cap)%nat -> reach convert is_mk md cap disk s ->
-  step convert is_mk md s (OSave v) = Ok (s', ObsSave w) ->
+  forall convert is_mk md cap disk s v fail s' w, (1 <= cap)%nat -> reach convert is_mk md cap disk s ->
+  step convert is_mk md s (OSave v fail) = Ok (s', ObsSave w) ->
   (forall k x, In (k, x) w -> map_get k (c_map (st_cache s')) = None) /\
   (forall fn ls l, view_lines s v = Some (fn, ls) -> In l ls -> is_modified l = true ->
      map_get (key (ln_file l)) (c_map (st_cache s')) = None) /\
@@ -120,6 +120,35 @@ Theorem C20_no_stale_after_save :
      load_obs s'' r = fresh_read convert (st_disk s') fn o).
 Proof. exact no_stale_after_save. Qed.
 Print Assumptions C20_no_stale_after_save.
+
+(* ... and under EVERY outcome of the write: when the rewrite of a file fails
+   (pre-existing *.pkglint.tmp, unwritable directory, failing rename -- the list
+   `fail`), nothing is reported as written for it, the disk keeps its content, the
+   file is evicted all the same, and the next Load returns the lines of the
+   UNCHANGED file, not the fixed lines that are still in memory *)
+Theorem C20_no_stale_after_failed_save :
+  forall convert is_mk md cap disk s v fail s' w, (1 <= cap)%nat -> reach convert is_mk md cap disk s ->
+  step convert is_mk md s (OSave v fail) = Ok (s', ObsSave w) ->
+  (forall k, key_in k fail = true ->
+     map_get k (st_disk s') = map_get k (st_disk s) /\ ~ In k (map fst w)) /\
+  (forall f ls l fn o s'' r,
+     view_lines s v = Some (f, ls) -> In l ls -> is_modified l = true ->
+     key fn = key (ln_file l) -> key_in (key fn) fail = true ->
+     load convert is_mk s' fn o = Ok (s'', r) ->
+     map_get (key fn) (c_map (st_cache s')) = None /\
+     load_obs s'' r = fresh_read convert (st_disk s) fn o).
+Proof. exact no_stale_after_failed_save. Qed.
+Print Assumptions C20_no_stale_after_failed_save.
+
+(* over a whole run no Line object is handed out twice *)
+Theorem C20_line_ids_never_reused :
+  forall convert is_mk md cap disk s, (1 <= cap)%nat -> reach convert is_mk md cap disk s ->
+  (forall v w fv av fw aw a,
+     nth_error (st_views s) v = Some (fv, av) -> nth_error (st_views s) w = Some (fw, aw) ->
+     In a av -> In a aw -> v = w) /\
+  (forall v fn addrs, nth_error (st_views s) v = Some (fn, addrs) -> NoDup addrs).
+Proof. exact line_ids_never_reused. Qed.
+Print Assumptions C20_line_ids_never_reused.
 
 (* every Load hands out Line objects that did not exist before, with no fix
    attached, disjoint from every earlier view, and leaves the earlier views alone *)
@@ -134,6 +163,27 @@ Theorem C20_fresh_lines_per_load :
     (forall w, (w < length (st_views s))%nat -> view_lines s' w = view_lines s w).
 Proof. exact fresh_lines_per_load. Qed.
 Print Assumptions C20_fresh_lines_per_load.
+
+(* FileCache.Get hands out lines that stay PRIVATE to the caller.  A Load that is
+   served by Get (the file is cached with these options) returns a view none of
+   whose Line objects is reachable from the cache (addr_cached: some table entry
+   holds the address) -- then and after EVERY continuation of the run (further
+   loads, overflow, fixes through any view, successful and failing saves,
+   modifications) -- and no other view holds any of them.  So whatever is done to
+   these Line objects (Autofix changes of Text, Line.once marks) cannot change
+   what a later Get copies from, in any mode.  (The view of a cache MISS is what
+   Put stores; that aliasing is C20_load_transparent_refuted.) *)
+Theorem C20_get_lines_fresh :
+  forall convert is_mk md cap disk s fn o eid s1 v, (1 <= cap)%nat -> reach convert is_mk md cap disk s ->
+  map_get (key fn) (c_map (st_cache s)) = Some eid ->
+  e_opts (entry_at (c_store (st_cache s)) eid) = o ->
+  load convert is_mk s fn o = Ok (s1, Some v) ->
+  forall h s2 obs w, run convert is_mk md s1 h = (s2, obs, w) ->
+  exists addrs, nth_error (st_views s2) v = Some (fn, addrs) /\
+    (forall a, In a addrs -> ~ addr_cached s2 a) /\
+    (forall u fu au a, u <> v -> nth_error (st_views s2) u = Some (fu, au) -> In a au -> ~ In a addrs).
+Proof. exact get_lines_private. Qed.
+Print Assumptions C20_get_lines_fresh.
 
 (* a fix through one view changes no Line of any other view (the cache entry of the
    first view is NOT another view: that aliasing is what the guard is about) *)
@@ -154,7 +204,7 @@ Proof. exact wit_guard_false. Qed.
 
 (* the same history followed by SaveAutofixChanges of the fixed view satisfies the
    guard, and the Load is served correctly (here from the disk: the save evicted) *)
-Definition ex_ops : list op := wit_ops ++ [OSave 0].
+Definition ex_ops : list op := wit_ops ++ [OSave 0 []].
 Definition ex_state (md : mode) : state :=
   fst (fst (run convert_plain all_mk md (init_state 2 wit_disk) ex_ops)).
 Example C20_guard_satisfiable : forall md,
@@ -173,7 +223,7 @@ Qed.
 (* a guarded history with a hit, a fix, a save and a reload; without the save it is not guarded *)
 Example C20_guarded_history :
   guarded convert_plain all_mk ModeAutofix (init_state 2 wit_disk)
-          ([OLoad (0, 0) 4; OLoad (0, 1) 4] ++ [OFix 0 0 (FReplaceAt 0 2 [32] [9]); OSave 0; OLoad (0, 0) 4]) = true /\
+          ([OLoad (0, 0) 4; OLoad (0, 1) 4] ++ [OFix 0 0 (FReplaceAt 0 2 [32] [9]); OSave 0 []; OLoad (0, 0) 4]) = true /\
   guarded convert_plain all_mk ModeAutofix (init_state 2 wit_disk) (wit_ops ++ [OLoad (0, 0) 4]) = false.
 Proof. split; vm_compute; reflexivity. Qed.
 
@@ -187,3 +237,17 @@ Proof.
   split; [vm_compute; reflexivity|].
   eexists; eexists. split; [vm_compute; reflexivity|]. split; vm_compute; reflexivity.
 Qed.
+
+(* a failing save: Load a.mk; ReplaceAt through the view; SaveAutofixChanges whose
+   write fails; Load a.mk: nothing written, disk unchanged, and the second Load
+   shows the lines of the unchanged file (whereas without the save it shows the
+   fixed Text, C20_load_transparent_refuted) *)
+Definition failed_save_run :=
+  run convert_plain all_mk ModeAutofix (init_state 2 wit_disk) (wit_ops ++ [OSave 0 [0]; OLoad (0, 0) 4]).
+Example C20_failed_save_example :
+  snd failed_save_run = None /\
+  st_disk (fst (fst failed_save_run)) = wit_disk /\
+  nth 2 (snd (fst failed_save_run)) ObsBad = ObsSave [] /\
+  nth 3 (snd (fst failed_save_run)) ObsBad = ObsLoad (fresh_read convert_plain wit_disk (0, 0) 4) /\
+  fresh_read convert_plain wit_disk (0, 0) 4 <> None.
+Proof. vm_compute. repeat split; try reflexivity. discriminate. Qed.
